@@ -5,6 +5,7 @@ mod aik;
 mod c03;
 mod c05;
 mod c08;
+mod c09;
 mod c11;
 mod c12;
 mod c15;
@@ -39,6 +40,9 @@ fn main() {
     // child-process entries (run in a fresh process so that a stack overflow is an observation)
     if sub == "c20-flat-deep" {
         c20::deep_child(args[2].parse().expect("depth"), &args[3]);
+    }
+    if sub == "c09-child" {
+        c09::child(&args);
     }
     if sub == "c17-child" {
         c17::child(&args);
@@ -82,6 +86,8 @@ fn main() {
         "c12-probe" => c12::probe(&ctx),
         "c12-corr" => c12::corr(&ctx),
         "c18-apply" => c18::apply(&ctx),
+        "c09-det" => c09::run(&ctx),
+        "c09-sites" => c09::sites(&ctx),
         "c17-iso" => c17::run(&ctx),
         other => {
             eprintln!("unknown sub-command {other}");
